@@ -192,7 +192,8 @@ def validate_trace(module, cfg_text, trace_path, timeout=900):
         mr = RE_REJECT.search(out)
         if mr:
             raise Undecided(f"trace not consumable by {module} at line {mr.group(1)} (event {mr.group(2)}): binding lost\n" + out[-3000:])
-        raise Undecided(f"TLC failed on {module}:\n" + out[-6000:])
+        errs = "\n".join(x for x in out.splitlines() if x.startswith("Error") or "line " in x and "col " in x)[:3000]
+        raise Undecided(f"TLC failed on {module}:\n" + errs + "\n...\n" + out[-1500:])
     return {"violations": violations, "binding_lost": sorted(binding), "scenarios": len(ids),
             "lines": sum(len(ls) for _, ls in scen), "tlc_states": res["distinct"], "rounds": 1, "wall": res["wall"]}
 
